@@ -495,7 +495,10 @@ def gen_sensor_case(r, kind=None, n=40, fault_rate=0.2):
     avg0 = r.pick([0.0, 40000.0, float(r.range(-20000, 110000)), bits2f(finite_float_bits(r))])
     ops = ["#case sn", f"sn.new kind={kind} win={win} avg={fx(avg0)}"]
     base = r.range(20000, 90000)
+    now = r.range(1, 10**15)
     for _ in range(r.range(1, n)):
+        # polls come at the polling rate (200 ms), now and then after a long gap (blocked read, outage, suspend)
+        now += 200_000_000 * (1 if not r.chance(0.12) else r.pick([2, 3, 11, 60, r.range(2, 5000)]))
         if kind == "cmd":
             if r.chance(fault_rate):
                 out, pv = r.pick(CMD_OUTPUTS[9:])
@@ -504,13 +507,14 @@ def gen_sensor_case(r, kind=None, n=40, fault_rate=0.2):
                 out, pv = r.pick(CMD_OUTPUTS[:9])
                 code = 0
             ptok = "err" if pv is None else "ok:" + fx(pv)
-            ops.append(f"sn.poll out={base64.b64encode(out.encode()).decode() or '='} exit={code} pv={ptok}")
+            start = "" if not r.chance(0.06) else " start=0"   # the command cannot be started (exec bits lost)
+            ops.append(f"sn.poll out={base64.b64encode(out.encode()).decode() or '='} exit={code} pv={ptok} now={now}{start}")
         else:
             if r.chance(fault_rate):
-                ops.append("sn.poll read=" + r.pick(["perm", "other", "garbage", "empty", "blank"]))
+                ops.append("sn.poll read=" + r.pick(["perm", "other", "garbage", "empty", "blank"]) + f" now={now}")
             else:
                 v = r.pick([base + r.range(-3000, 3000), base, r.range(-50000, 150000), r.range(-2**62, 2**62), 0])
-                ops.append(f"sn.poll read=ok:{v}")
+                ops.append(f"sn.poll read=ok:{v} now={now}")
     return ops
 
 
